@@ -228,8 +228,9 @@ class Engine:
             if name in getattr(self.ctr, 'const_globals', ()) or True:
                 return VPy(o)
         import re as _re
-        if o is _re.match:
-            return VPy(o)               # modelled in call_value (match model of the literal pattern)
+        import ast as _ast
+        if o is _re.match or o is _ast.literal_eval:
+            return VPy(o)               # modelled in call_value (match model of the literal pattern / literal evaluation)
         if inspect.isfunction(o):
             q = '%s.%s' % (o.__module__, o.__qualname__)
             if not q.startswith('parso.') and 'ext:' + q in REG:
@@ -456,11 +457,19 @@ class Engine:
         pos = args[1].t if len(args) > 1 else z3.IntVal(0)
         if not isinstance(s, VStr):
             raise OutOfSubset('match on %s' % kind_of(s))
-        m = z3.Int(fresh_name('match'))
-        n = z3.Int(fresh_name('mlen'))
+        if isinstance(pat, VPy):
+            # a concrete pattern: matching is a function of (text, position) -- the same call gives the same match
+            pid = abs(self.intern(pat.obj).as_long())
+            m = z3.Function('$m_%d' % pid, S, I, I)(s.t, pos)
+            n = z3.Function('$mlen_%d' % pid, S, I, I)(s.t, pos)
+        else:
+            pid = None
+            m = z3.Int(fresh_name('match'))
+            n = z3.Int(fresh_name('mlen'))
         st.assume(z3.Implies(m != 0, z3.And(n >= 0, pos >= 0, pos + n <= z3.Length(s.t))))
         ref = VRef(m, 're.Match')
         ref.match_info = (s.t, pos, n)
+        ref.is_bytes = bool(getattr(s, 'b', False))
         ref.groups = {}
         if isinstance(pat, VRef):
             # a pattern held in a variable: the contract may declare that it is a plain sequence of capturing groups
@@ -495,8 +504,8 @@ class Engine:
                 layout = []
             off = pos
             lens = []
-            for gi in layout:
-                ln = z3.Int(fresh_name('glen%s' % (gi if gi is not None else 'x')))
+            for li, gi in enumerate(layout):
+                ln = z3.Function('$glen_%d_%d' % (pid, li), S, I, I)(s.t, pos)
                 if gi is not None:
                     ref.groups[gi] = (off, ln)
                 lens.append(ln)
@@ -504,7 +513,7 @@ class Engine:
             if lens:
                 st.assume(z3.Implies(m != 0, z3.And([l_ >= 0 for l_ in lens] + [z3.Sum(lens) == n])))
             # facts about this pattern's matches that the contract imports from RegLan obligations / states as assumptions
-            name = next((k for k, v in vars(self.live_mod).items() if v is pat.obj), None)
+            name = next((k for k, v in vars(self.live_mod).items() if v is pat.obj), '<literal>')
             for cl in getattr(self.ctr, 'match_facts', {}).get(name, []):
                 env = {'s': s, 'pos': VInt(pos), 'end': VInt(pos + n), 'matched': VBool(m != 0)}
                 for gi, (o_, l_) in ref.groups.items():
@@ -521,9 +530,12 @@ class Engine:
             raise OutOfSubset('match.group of this shape')
         s, pos, n = info
         k = self.as_int(args[0]).as_long() if args else 0
+        isb = getattr(m, 'is_bytes', False)
         if k == 0:
-            return VStr(z3.SubString(s, pos, n))
+            return VStr(z3.SubString(s, pos, n), b=isb)
         g = getattr(m, 'groups', {}).get(k)
+        if g is not None:
+            return VStr(z3.SubString(s, g[0], g[1]), b=isb)
         if g is None:
             if getattr(m, 'layout_known', False):
                 # a group nested inside the top-level ones: it may not have taken part (None) and is some text otherwise
